@@ -125,10 +125,21 @@ class Ctx(_Reporting):
     def _check(self, *a):
         t = time.perf_counter()
         r = self.solver.check(*a)
+        self._model_solver = self.solver
+        if r == z3.unknown:
+            # the incremental solver gave up (resource limit, incompleteness of an internal tactic): ask once more in a fresh solver
+            reason = self.solver.reason_unknown()
+            s2 = z3.Solver(); s2.set("timeout", 3 * SOLVER_TIMEOUT_MS)
+            s2.add(self.solver.assertions()); s2.add(*a)
+            r = s2.check()
+            self.nretries = getattr(self, 'nretries', 0) + 1
+            if r == z3.unknown:
+                self.nunknown += 1
+                self.unknown_reasons = (getattr(self, 'unknown_reasons', []) + ['%s / %s' % (reason, s2.reason_unknown())])[:5]
+            else:
+                self._model_solver = s2
         self.solver_time += time.perf_counter() - t
         self.nchecks += 1
-        if r == z3.unknown:
-            self.nunknown += 1
         return r
 
     # ---- path lifecycle
@@ -142,7 +153,7 @@ class Ctx(_Reporting):
             self.model = None
 
     def _extract_model(self):
-        m = self.solver.model()
+        m = getattr(self, '_model_solver', self.solver).model()
         d = {}
         for i, v in enumerate(self.zvars):
             val = m.eval(v, model_completion=True)
